@@ -21,7 +21,7 @@ ID = "C14"
 LEVEL = "exploration"
 RULE = ("case = (IR statement of any supported kind, or a C03-style multi-statement script with DROP/RENAME, or a dialect-specific statement such as "
         "vertica swap_partitions / spark path sources; dialect; default schema S in {fresh name, a qualifier the script already uses} x spelling {lower, "
-        "UPPER, Mixed, quoted lower}; mechanism {scoped override, environment variable in a fresh interpreter}). Non-trivial = the statement has at least "
+        "UPPER, Mixed, quoted lower}; mechanism {scoped override, environment variable in a fresh interpreter, environment variable with a scoped override of another setting on top, scoped override on top of a different environment default}). Non-trivial = the statement has at least "
         "one unqualified and the case is judged under a default; distinct = distinct (SQL text, dialect, S, mechanism).")
 ASSUMPTIONS = [
     "both texts must be accepted by the dialect's own sqlfluff parser with the IR's parse shape, otherwise the case is discarded and counted",
@@ -62,13 +62,27 @@ def view_scoped(sql, dialect, S):
         return observe.dump(sql, dialect)
 
 
-def views_env(cases, S):
-    """one fresh interpreter started with SQLLINEAGE_DEFAULT_SCHEMA=S dumps all cases"""
+# mechanisms that involve the environment: what the fresh interpreter is started with, and what is scoped on top of it
+ENV_MECHANISMS = {
+    "environment": lambda S: (S, None),
+    # a scoped override of an unrelated setting (at its default value) must not hide the environment's default schema
+    "environment+scoped_other_setting": lambda S: (S, {"TSQL_NO_SEMICOLON": False}),
+    "environment+scoped_other_setting2": lambda S: (S, {"LATERAL_COLUMN_ALIAS_REFERENCE": False}),
+    # a scoped default schema wins over the environment's
+    "scoped_over_environment": lambda S: ("envschema", {"DEFAULT_SCHEMA": S}),
+}
+
+
+def views_env(cases, S, scoped=None):
+    """one fresh interpreter started with SQLLINEAGE_DEFAULT_SCHEMA=S dumps all cases (under a scoped override if given)"""
     env = {k: v for k, v in os.environ.items() if not k.startswith("SQLLINEAGE_")}
     env.update(PYTHONHASHSEED="0", PYTHONDONTWRITEBYTECODE="1", VERIF_REPO=runner.REPO)
     if S is not None:
         env["SQLLINEAGE_DEFAULT_SCHEMA"] = S
-    r = subprocess.run([sys.executable, "-B", _CHILD], input=json.dumps({"cases": cases, "perm": 0}), env=env, capture_output=True, text=True)
+    req = {"cases": cases, "perm": 0}
+    if scoped is not None:
+        req["scoped"] = scoped
+    r = subprocess.run([sys.executable, "-B", _CHILD], input=json.dumps(req), env=env, capture_output=True, text=True)
     if r.returncode != 0:
         raise runner.HarnessError("C14 child failed: " + r.stderr[-1500:])
     return [o["dump"] for o in json.loads(r.stdout)]
@@ -228,12 +242,18 @@ def _env_batch(payload):
     """environment mechanism: a batch of cases per schema, each side in its own fresh interpreter"""
     pairs, S, ctx = payload
     res = runner.Res()
-    a = views_env([{"sql": p["sql"], "dialect": p["dialect"]} for p in pairs], S)
     b = views_env([{"sql": p["qualified_sql"], "dialect": p["dialect"]} for p in pairs], None)
-    for p, x, y in zip(pairs, a, b):
-        v = judge_pair(p["sql"], p["qualified_sql"], p["dialect"], S, "environment", res, ctx, p["stream"], True, precomputed=(x, y))
-        if v is not None and len(res.violations) < 3:
-            res.violation(v["kind"], v["case"], v["detail"])
+    names = sorted(ENV_MECHANISMS)
+    for mi, mech in enumerate(names):
+        # every pair under the plain environment mechanism; a third of them under each combined one
+        sel = [k for k in range(len(pairs)) if mech == "environment" or k % (len(names) - 1) == mi % (len(names) - 1)]
+        env_S, scoped = ENV_MECHANISMS[mech](S)
+        a = views_env([{"sql": pairs[k]["sql"], "dialect": pairs[k]["dialect"]} for k in sel], env_S, scoped)
+        for k, x in zip(sel, a):
+            p = pairs[k]
+            v = judge_pair(p["sql"], p["qualified_sql"], p["dialect"], S, mech, res, ctx, p["stream"], True, precomputed=(x, b[k]))
+            if v is not None and len(res.violations) < 3:
+                res.violation(v["kind"], v["case"], v["detail"])
     return res
 
 
@@ -256,8 +276,9 @@ def env_cases(ctx, n):
 
 def replay(case):
     S = case["default_schema"]
-    if case.get("mechanism") == "environment":
-        a = views_env([{"sql": case["sql"], "dialect": case["dialect"]}], S)[0]
+    if case.get("mechanism") in ENV_MECHANISMS:
+        env_S, scoped = ENV_MECHANISMS[case["mechanism"]](S)
+        a = views_env([{"sql": case["sql"], "dialect": case["dialect"]}], env_S, scoped)[0]
         b = views_env([{"sql": case["qualified_sql"], "dialect": case["dialect"]}], None)[0]
     else:
         a = view_scoped(case["sql"], case["dialect"], S)
